@@ -40,8 +40,7 @@ def run_pytest(d, fname, style, opt):
             '-c', '/dev/null', fname]
     if opt:
         args.insert(2, '--xdoctest-options=' + opt)
-    with contextlib.redirect_stdout(buf), contextlib.redirect_stderr(buf), warnings.catch_warnings():
-        warnings.simplefilter('ignore')
+    with contextlib.redirect_stdout(buf), contextlib.redirect_stderr(buf), harness.fresh_process_warning_filters():
         rc = pytest.main(args, plugins=[r])
     return r.out, int(rc), buf.getvalue()
 
@@ -52,8 +51,7 @@ def run_native(fname, style, opt):
     argv = ['xdoctest', fname, 'all', '--style=' + style, '--verbose=1', '--nocolor']
     if opt:
         argv.append('--options=' + opt)
-    with contextlib.redirect_stdout(buf), contextlib.redirect_stderr(buf), warnings.catch_warnings():
-        warnings.simplefilter('ignore')
+    with contextlib.redirect_stdout(buf), contextlib.redirect_stderr(buf), harness.fresh_process_warning_filters():
         try:
             rc = xmain(argv)
         except SystemExit as ex:
